@@ -695,6 +695,8 @@ where
         folder: &mut dyn FallibleTypeFolder<I, Error = E>,
         outer_binder: DebruijnIndex,
     ) -> Result<Ty<I>, E> {
+        #[cfg(chalk_verif)]
+        crate::verif::tick();
         let interner = folder.interner();
         Ok(match self.kind(interner) {
             TyKind::BoundVar(bound_var) => {
